@@ -70,7 +70,7 @@ func scenarioD(H int, withNoPub bool, shapes []int, msgsPerTopic, c int, inFligh
 	}
 	return &explore.Scenario{Name: name, C: c, DataOnly: c < 0, Opts: vs.Options{LazyStart: inFlight}, Body: func() {
 		topics := []string{"t1", "t2"}
-		ptopics := []string{"o1", "o2"}
+		ptopics := []string{"o1", ""} // the empty string is a topic like any other for a handler that has a publisher
 		// pools
 		var subs []*hx.ScriptSub
 		for si := 0; si < 2; si++ {
